@@ -111,6 +111,24 @@ class ArraySlice(ctypes.Structure):
     ]
 
 
+def check_int_fits(value: int, ctype, what: str) -> None:
+    """Raise a ValueError if `value` cannot be represented by the integer C type `ctype`.
+
+    ctypes silently truncates integers that are out of range, which would result
+    in an encoding that decodes to a different (valid-looking) value.
+    """
+    num_bits = ctypes.sizeof(ctype) * 8
+    if ctype(-1).value < 0:  # signed type
+        min_value, max_value = -(2 ** (num_bits - 1)), 2 ** (num_bits - 1) - 1
+    else:
+        min_value, max_value = 0, 2**num_bits - 1
+    if not (min_value <= value <= max_value):
+        raise ValueError(
+            f"{what} {value} cannot be encoded: "
+            f"should be in the range [{min_value}, {max_value}]"
+        )
+
+
 class Command(ctypes.Structure):
     _pack_ = 1
     _fields_ = [
@@ -118,6 +136,15 @@ class Command(ctypes.Structure):
     ]
 
     def __init__(self, *args, **kwargs):
+        # Make sure that integer values fit in their fields
+        field_types = {field[0]: field[1] for field in self._fields_}
+        field_types["id"] = INSTR_ID
+        for name, value in kwargs.items():
+            ctype = field_types.get(name)
+            if isinstance(value, int) and hasattr(ctype, "_type_"):
+                check_int_fits(
+                    value, ctype, f"field '{name}' of {self.__class__.__name__}:"
+                )
         try:
             super().__init__(*args, **kwargs)
         except TypeError as err:
